@@ -6,7 +6,7 @@
 (*   absent  : required => reported as missing (ErrInvalidRequired); optional => accepted*)
 (*   garbage : rejected                                                                  *)
 (*   empty   : accepted iff allowEmptyValue; never reported as missing                    *)
-EXTENDS ParamCodec, FindingsC05, Json, CSV
+EXTENDS ParamCodec, ParamDecode, FindingsC05, Json, CSV
 
 Trace == ndJsonDeserialize("trace.ndjson")
 VARIABLE l
@@ -25,7 +25,8 @@ Failed(line) ==
    (IF line.verdict \in {"panic", "crash", "hang"} \/ line.dec.err \in {"panic", "crash", "hang"} THEN {"no_panic"} ELSE {})
    \cup
    (CASE c.presence = "present" ->
-           (IF ~(line.dec.err = "ok" /\ line.dec.found /\ "val" \in DOMAIN line.dec /\ Eq(line.dec.val, c.v))
+           \* (a property the schema gives no type to has no determined decoded value: ParamCodec!Typed)
+           (IF Typed(c.schema, c.v) /\ ~(line.dec.err = "ok" /\ line.dec.found /\ "val" \in DOMAIN line.dec /\ Eq(line.dec.val, c.v))
             THEN {"decoded_is_inverse_of_wire"} ELSE {})
            \cup (IF Valid(c.schema, c.v, "plain")
                  THEN (IF line.verdict # "ok" THEN {"valid_value_accepted"} ELSE {})
@@ -49,6 +50,26 @@ LineOK(line) ==
                                                     target |-> (IF "target" \in DOMAIN line THEN line.target ELSE "-")],
                                            class |-> Class(line, bad)])>>, "violations.ndjson")
 
-Judge == l > 0 => LineOK(Trace[l])
+(* model fidelity: for the path cells and the form cells of the query, the code decodes to exactly what the      *)
+(* implementation-shaped model (ParamDecode, the designs as built) computes from the same wire -- also where that *)
+(* is not the value that was serialised (finding F-C05-4).  Warnings, never violations.                          *)
+ModelScope(line) ==
+   LET c == line.c IN
+   /\ line.doc = "ok" /\ "skip" \notin DOMAIN line /\ line.route = "ok" /\ c.presence = "present"
+   /\ c.shape \in {"int", "int32", "num", "bool", "str", "arrint", "arrstr", "obj", "objk", "multitype", "multitype_str"}
+   /\ ~Has(c.schema, "apSchema")            \* (as built, an additionalProperties schema is applied to declared properties too: F-C05-6)
+   /\ (c.cell.in = "path" \/ (c.cell.in = "query" /\ c.cell.style = "form" /\ ~c.decoy))
+   /\ line.dec.err \in {"ok", "parse"}
+Fidelity(line) ==
+   IF ~ModelScope(line) THEN TRUE
+   ELSE LET c == line.c
+            r == AsBuilt(c.cell, <<"p">>, c.schema, c.v, c.mode, IF c.other THEN "z" ELSE IF c.upper THEN "upper" ELSE "-")
+            same == IF ~r.ok THEN line.dec.err = "parse"
+                    ELSE IF IsAbsent(r) THEN line.dec.err = "ok" /\ "val" \notin DOMAIN line.dec
+                    ELSE line.dec.err = "ok" /\ "val" \in DOMAIN line.dec /\ Eq(line.dec.val, r.val) IN
+        same \/ CSVWrite("%1$s", <<ToJson([case |-> line.case, c |-> c, dec |-> line.dec,
+                                           what |-> "decoded value differs from ParamDecode!AsBuilt"])>>, "fidelity.ndjson")
+
+Judge == l > 0 => (LineOK(Trace[l]) /\ Fidelity(Trace[l]))
 AllConsumed == TLCGet("stats").diameter = Len(Trace) + 1
 =============================================================================
